@@ -443,6 +443,11 @@ class UfhController(Parent, DeviceHeat):  # UFC (02):
                 ufh_idx = f"{idx:02X}"
                 if not flag:
                     self.circuit_by_id[ufh_idx] = {SZ_ZONE_IDX: None}
+                    # an earlier 000C for this circuit is now stale: drop it, or a
+                    # restore from the cached packets would bring its zone back
+                    for msgs in list(self._msgz_.get(Code._000C, {}).values()):
+                        for old in [m for c, m in msgs.items() if c[:2] == ufh_idx]:
+                            self._delete_msg(old)
                 # FIXME: this causing tests to fail when read-only protocol
                 # elif SZ_ZONE_IDX not in self.circuit_by_id[ufh_idx]:
                 #     cmd = Command.from_attrs(
